@@ -55,10 +55,21 @@ class C18(Prop):
                 files["s%d.lua" % i] = big_file(rnd.randrange(20, 120), "m%d" % i)
             else:
                 files["s%d.lua" % i] = "x = = %d\nlocal = 2\n" % i
+        # a directory to be walked: warning-only files interleaved (alphabetically) with directories named *.lua, which the
+        # walk lists and the workers then fail to read (EISDIR): errors counted from worker threads
+        udir_files, udir_dirs = [], []
+        for i in range(50):
+            f = "udir/e%03d_w.lua" % i
+            files[f] = "".join("local u%d_%d = %d\n" % (i, j, j) for j in range(12))
+            udir_files.append(f)
+            d = "udir/e%03d_x.lua" % i
+            os.makedirs(os.path.join(proj, d), exist_ok=True)
+            udir_dirs.append(d)
         for name, text in files.items():
+            os.makedirs(os.path.dirname(os.path.join(proj, name)), exist_ok=True)
             open(os.path.join(proj, name), "w").write(text)
-        names = sorted(files)
-        outcomes = cli.harness_lint(proj, None, names)
+        names = sorted(f for f in files if not f.startswith("udir/"))
+        outcomes = cli.harness_lint(proj, None, sorted(files))
         items = []
         for i in range(n):
             k = rnd.choice([4, 8, 20, len(names)])
@@ -69,6 +80,9 @@ class C18(Prop):
             chosen = list(dict.fromkeys(chosen))     # a file listed twice gives two identical blocks: keep the blocks identifiable
             if rnd.random() < 0.2:
                 chosen.append("missing_%d.lua" % i)
+            walk_udir = rnd.random() < 0.35
+            if walk_udir:
+                chosen.insert(rnd.randrange(len(chosen) + 1), "udir")
             style = rnd.choice(["quiet", "quiet", "json2"])
             threads = rnd.choice([2, 3, 8, 16, 16, 16, 64])
             if only is not None and only != i:
@@ -113,7 +127,10 @@ class C18(Prop):
                 if f not in order:
                     order.append(f)
             nblocks = 0
+            expanded = []
             for f in chosen:
+                expanded += sorted(udir_files + udir_dirs) if f == "udir" else [f]
+            for f in expanded:
                 oc = outcomes.get(f)
                 if oc is None:
                     jobs_terms.append("[SAdd CErr 1%N]")
